@@ -33,7 +33,11 @@ NPROC = os.cpu_count() or 4
 STD_AXIOMS = {"propext", "Classical.choice", "Quot.sound"}
 
 LIB_FLAGS = {
-    "dbg": "-O1 -g1 -UNDEBUG -DBFL_VERIF -fsanitize=address,undefined -fno-sanitize-recover=all -fno-omit-frame-pointer",
+    # every UBSan check is fatal except `null` / `nonnull-attribute`, which are fatal through UBSAN_OPTIONS
+    # halt_on_error=1 (run_harness) so that a report raised *inside Eigen's headers* on an empty matrix
+    # (`&m.coeffRef(0,0)` of a 0-column operand: a reference bound to null, never accessed) can be re-examined
+    # with halt_on_error=0: see benign_ubsan()
+    "dbg": "-O1 -g1 -UNDEBUG -DBFL_VERIF -fsanitize=address,undefined -fno-sanitize-recover=all -fsanitize-recover=null,nonnull-attribute -fno-omit-frame-pointer",
     "tsan": "-O1 -g1 -DBFL_VERIF -fsanitize=thread -fno-omit-frame-pointer",
     # a release-like build without sanitizers (address reuse, optimisation-dependent paths: DEEPEN.md class j)
     "opt": "-O2 -g0 -DNDEBUG -DBFL_VERIF",
@@ -72,6 +76,14 @@ def build_lib(kind="dbg"):
     """Bring the out-of-tree build of the library up to date with /repo's working tree."""
     d = BUILD / kind
     with locked("lib-" + kind):
+        stamp = d / "verif-flags.txt"
+        if (d / "build.ninja").exists() and (not stamp.exists() or stamp.read_text() != LIB_FLAGS[kind]):
+            # configured with other compiler flags (an older version of this file): configure again
+            for f in ("build.ninja", "CMakeCache.txt"):
+                try:
+                    (d / f).unlink()
+                except FileNotFoundError:
+                    pass
         if not (d / "build.ninja").exists():
             d.mkdir(parents=True, exist_ok=True)
             rc, o, e = sh(["cmake", "-S", str(REPO), "-B", str(d), "-G", "Ninja",
@@ -79,6 +91,7 @@ def build_lib(kind="dbg"):
                            "-DCMAKE_CXX_FLAGS=" + LIB_FLAGS[kind]])
             if rc != 0:
                 raise BuildError("cmake configure failed:\n" + o[-3000:] + e[-3000:])
+            stamp.write_text(LIB_FLAGS[kind])
         rc, o, e = sh(["ninja", "-C", str(d), "BayesFilters"])
         if rc != 0:
             raise BuildError("library build failed (%s):\n%s%s" % (kind, o[-6000:], e[-3000:]))
@@ -111,7 +124,7 @@ def build_harness(name, kind="dbg", extra_flags=(), libs=()):
     src = VERIF / "harness" / (name + ".cpp")
     # one directory of harness binaries per verif tree: several trees (worktrees of contributors) may
     # share one library build directory through BFL_BUILD_DIR but have different harness sources
-    outdir = BUILD / kind / ("h-" + hashlib.sha256(str(VERIF).encode()).hexdigest()[:8])
+    outdir = BUILD / kind / ("h-" + hashlib.sha256((str(VERIF) + "|" + LIB_FLAGS[kind]).encode()).hexdigest()[:8])
     outdir.mkdir(parents=True, exist_ok=True)
     binary = outdir / name
     dep = outdir / (name + ".d")
@@ -163,6 +176,9 @@ def run_driver(lines, timeout=3600):
     return out
 
 
+BENIGN_UBSAN_CASES = []   # cases whose only sanitizer report was Eigen's own null reference on an empty operand
+
+
 def classify_crash(stderr, rc):
     if "AddressSanitizer" in stderr:
         m = re.search(r"AddressSanitizer: ([\w-]+)", stderr)
@@ -178,6 +194,33 @@ def classify_crash(stderr, rc):
     return "crash:rc%d" % rc
 
 
+_BENIGN_UB = re.compile(r"^/usr/include/eigen3/\S+: runtime error: (reference binding to null pointer of type '(const )?(Scalar|double)'|null pointer passed as argument \d+, which is declared to never be null)")
+
+
+def benign_ubsan(stderr):
+    """True when every UBSan report in `stderr` is raised at a location inside Eigen's own headers and is of
+    the kind Eigen produces for zero-size operands (a reference / memcpy argument formed from the null data
+    pointer of an empty matrix and never accessed).  An access through such a pointer is a SEGV that
+    AddressSanitizer reports; a report located in the library's or the harness's own source is never benign."""
+    reps = [l for l in stderr.split("\n") if "runtime error:" in l]
+    return bool(reps) and all(_BENIGN_UB.match(l.strip()) for l in reps)
+
+
+def _rerun_tolerating_eigen_null(binary, line, timeout, e0):
+    """the single case `line` again, with the two recoverable UBSan checks not halting: returns its output
+    if the process completes and all that UBSan said was benign_ubsan, else None"""
+    e1 = dict(e0)
+    e1["UBSAN_OPTIONS"] = "print_stacktrace=0:halt_on_error=0"
+    try:
+        rc, o, e = sh([str(binary)], inp=line + "\n", timeout=timeout, env=e1)
+    except subprocess.TimeoutExpired:
+        return None
+    got = [x for x in o.split("\n") if x != ""]
+    if rc == 0 and len(got) == 1 and "AddressSanitizer" not in e and "LeakSanitizer" not in e and benign_ubsan(e):
+        return got[0]
+    return None
+
+
 def run_harness(binary, lines, timeout=900, env=None):
     """Feed the case lines to the harness.  A crash (sanitizer report, Eigen assertion, abort)
     ends the process: the case that crashed gets the output `crash:<kind>` and the remaining
@@ -186,7 +229,7 @@ def run_harness(binary, lines, timeout=900, env=None):
     i = 0
     e0 = dict(os.environ)
     e0.setdefault("ASAN_OPTIONS", "detect_leaks=1:abort_on_error=0:halt_on_error=1")
-    e0.setdefault("UBSAN_OPTIONS", "print_stacktrace=1")
+    e0.setdefault("UBSAN_OPTIONS", "print_stacktrace=1:halt_on_error=1")
     if env:
         e0.update(env)
     while i < len(lines):
@@ -215,8 +258,16 @@ def run_harness(binary, lines, timeout=900, env=None):
             logs[len(outs) - 1] = e[-4000:]
             break
         outs.extend(got[:ncomplete])
-        outs.append(classify_crash(e, rc))
-        logs[len(outs) - 1] = e[-4000:]
+        kind = classify_crash(e, rc)
+        again = None
+        if kind == "crash:ubsan" and benign_ubsan(e):
+            again = _rerun_tolerating_eigen_null(binary, chunk[ncomplete], timeout, e0)
+        if again is not None:
+            outs.append(again)
+            BENIGN_UBSAN_CASES.append(chunk[ncomplete][:200])
+        else:
+            outs.append(kind)
+            logs[len(outs) - 1] = e[-4000:]
         i = len(outs)
     return outs, logs
 
@@ -643,6 +694,9 @@ class Ctx:
                                     "data": {"theorems_not_checking": self.proof_failure}, "no_input": True})
         wall = time.time() - self.t0
         cov = dict(self.coverage)
+        if BENIGN_UBSAN_CASES:
+            cov["eigen_null_reference_reports_tolerated"] = {"cases": len(BENIGN_UBSAN_CASES), "first": BENIGN_UBSAN_CASES[0],
+                "note": "UBSan 'reference binding to null pointer' raised inside Eigen's headers on an empty operand, case re-run to completion; see vlib.benign_ubsan"}
         cov.setdefault("trusted_base", [
             "Lean 4.33.0 kernel", "Mathlib v4.33.0", "axioms: propext, Classical.choice, Quot.sound only (audited per theorem on this run)",
             "correspondence harness + generators + tolerances (differential testing of model vs implementation)",
@@ -656,7 +710,9 @@ class Ctx:
         }
         # a coverage-instrumented run (tools/tiecov.py) is a measurement of the tie, not a check: its
         # evidence goes next to the coverage build, never over the evidence of the sanitizer run
-        evdir = (BUILD / "cov" / "evidence") if TIECOV else (VERIF / "evidence")
+        # likewise a run against a scratch copy of the repository (BFL_REPO: seeded changes, harmless rewrites)
+        # never overwrites the evidence of the run against /repo itself
+        evdir = (BUILD / "cov" / "evidence") if TIECOV else ((VERIF / "evidence") if str(REPO) == "/repo" else (BUILD / "evidence"))
         evdir.mkdir(parents=True, exist_ok=True)
         (evdir / (self.prop + ".json")).write_text(json.dumps(ev, indent=1, default=str) + "\n")
         for h in self.known_hits:
